@@ -896,6 +896,12 @@ class _KeyGroup:
         return 2
 
 
+class _KeyGB(list):
+    @property
+    def groups(self):
+        return {k: [i] for i, (k, g) in enumerate(self)}
+
+
 class _KeyFrame:
     """one row group's frame as partition_on_columns sees it: groupby yields (key, group) pairs"""
 
@@ -903,7 +909,14 @@ class _KeyFrame:
         self.columns_, self.keys = columns, keys
 
     def groupby(self, by, observed=False):
-        return [(k, _KeyGroup()) for k in self.keys]
+        return _KeyGB([(k, _KeyGroup()) for k in self.keys])
+
+    @property
+    def loc(self):
+        class _L:
+            def __getitem__(self, k):
+                return _KeyGroup()
+        return _L()
 
     def __iter__(self):
         return iter(self.columns_)
